@@ -687,3 +687,81 @@ def _transcript_integers(ctx):
     m.ctx.expect(seen_some and seen_none, 'C04:promise-encoding', 'promise loop: Some / None arms not both observed', None, None)
     ctx.extra.setdefault('engine_m', {})['regions'] = ctx.extra.get('engine_m', {}).get('regions', []) + m.regions
     ctx.functions |= {r['function'] for r in m.regions}
+
+
+# ================================================================================================ C03: the chunk loop of verify_batch
+def c03_chunk_loop(ctx):
+    try:
+        _c03_chunk_loop(ctx)
+    except lib.Inconclusive as e:
+        ctx.inconclusive.append('Engine M: %s' % e)
+
+
+def _c03_chunk_loop(ctx):
+    """control-flow facts about verify_batch that do not depend on the batch size: the call of `verify` sits on a cycle of the CFG whose
+    head advances an iterator over (statement chunks, proof chunks, transcript chunks); every chunk result is appended to the masks"""
+    m = M(ctx)
+    f = m.fn(r'range_proof\.rs.*>::verify_batch$')
+    calls = [b for b in f.blocks if re.search(r'RangeProof::<P>::verify\(', f.blocks[b][1])]
+    if len(calls) != 1:
+        raise lib.Inconclusive('verify_batch: expected one call of verify, found %d' % len(calls))
+    vb = calls[0]
+    # cycle through vb?
+    succ = {b: [t for t in re.findall(r'bb\d+', f.blocks[b][1]) if t in f.blocks] for b in f.blocks}
+    # ignore unwind edges
+    for b in succ:
+        term = f.blocks[b][1]
+        unw = re.findall(r'unwind: (bb\d+)', term)
+        succ[b] = [t for t in succ[b] if t not in unw]
+    seen, stack = set(), list(succ[vb])
+    on_cycle = False
+    reach = set()
+    while stack:
+        b = stack.pop()
+        if b in reach:
+            continue
+        reach.add(b)
+        if b == vb:
+            on_cycle = True
+        stack.extend(succ[b])
+    heads = [b for b in reach if re.search(r'as Iterator>::next\(', f.blocks[b][1]) and vb in _reach_from(succ, b)]
+    m.note_region(f, 'control flow: call of verify, enclosing loop', sorted(reach & _reach_to(succ, vb)))
+    rd = {'replay_cfg': {'scenario': 'batch', 'n': 2, 'x': 1, 'members': [dict({'m': 1, 'cap': 1}, **({'tamper': {'op': 'scalar_add_delta', 'elem': 4}} if i == 256 else {})) for i in range(257)],
+                         'actions': ['VerifyOnly']}, 'replay_seeds': 1}
+    ctx.expect(on_cycle and len(heads) >= 1, 'C03:member-ignored:index>=256', 'verify_batch: the call of verify is not inside a loop over the chunks (members beyond the first chunk are never verified)', None,
+               'tampered_accepted', rd)
+    if heads:
+        it = re.search(r'<(.*) as Iterator>::next', f.blocks[heads[0]][1]).group(1)
+        ok = it.count('Chunks') >= 2 and 'ChunksMut' in it
+        ctx.expect(ok, 'C03:chunk-iterator', 'verify_batch: the chunk loop does not iterate over (statement chunks, proof chunks, transcript chunks) together: %s' % it[:200], None, 'tampered_accepted', rd)
+    # every result of a chunk is appended to the output (Vec::append on the masks) on the path from the call back to the loop head
+    app = [b for b in (reach & _reach_to(succ, heads[0] if heads else vb)) if re.search(r'Vec::<.*ExtendedMask.*>::append\(', f.blocks[b][1])]
+    ctx.expect(len(app) >= 1, 'C03:result-count', 'verify_batch: chunk results are not appended to the returned vector inside the loop', None, 'results_len_wrong', rd)
+    ctx.extra.setdefault('engine_m', {})['regions'] = ctx.extra.get('engine_m', {}).get('regions', []) + m.regions
+    ctx.functions |= {r['function'] for r in m.regions}
+
+
+def _reach_from(succ, b):
+    seen, st = set(), [b]
+    while st:
+        x = st.pop()
+        if x in seen:
+            continue
+        seen.add(x)
+        st.extend(succ.get(x, []))
+    return seen
+
+
+def _reach_to(succ, target):
+    pred = {}
+    for a, ts in succ.items():
+        for t in ts:
+            pred.setdefault(t, []).append(a)
+    seen, st = set(), [target]
+    while st:
+        x = st.pop()
+        if x in seen:
+            continue
+        seen.add(x)
+        st.extend(pred.get(x, []))
+    return seen
